@@ -437,6 +437,7 @@ Proof.
   - split; [exact Hf|]. eapply idx_inv_ext; [| |exact Hinv]; reflexivity.
   - split; [exact Hf|]. eapply idx_inv_ext; [| |exact Hinv]; reflexivity.
   - split; [exact Hf|]. eapply idx_inv_ext; [| |exact Hinv]; reflexivity.
+  - (* ECleanup *) exact (conj Hf Hinv).
 Qed.
 
 Lemma init_wf : wf init.
@@ -768,8 +769,8 @@ Qed.
 
 (* the asynchronous removal of an expired ban, and a short ban that runs out, never lift a ban in force *)
 Lemma async_unban_is_inert v s a :
-  fst (step v s (EUnbanLands a)) = s /\ fst (step current_variant s (EBanLapse a)) = s.
-Proof. split; reflexivity. Qed.
+  fst (step v s (EUnbanLands a)) = s /\ fst (step current_variant s (EBanLapse a)) = s /\ fst (step v s (ECleanup a)) = s.
+Proof. repeat split; reflexivity. Qed.
 
 End Proofs.
 
